@@ -132,6 +132,10 @@ func (m *TCPMuxDefault) GetConnByUfrag(ufrag string, isIPv6 bool, local net.IP) 
 	}
 
 	conn, ok := m.getConn(ufrag, isIPv6, local)
+	if ok && conn.isClosed() {
+		// closed, but its close watcher has not unregistered it yet
+		ok = false
+	}
 	if ok {
 		conn.ClearAliveTimer()
 	} else {
